@@ -4,9 +4,11 @@ import (
 	"bytes"
 	"encoding/json"
 	"fmt"
+	goyaml "github.com/goccy/go-yaml"
 	"math/rand/v2"
 	"os"
 	"path/filepath"
+	"reflect"
 	"strings"
 
 	"github.com/gkampitakis/go-snaps/match"
@@ -27,6 +29,32 @@ type mSpec struct {
 }
 
 func drawPlaceholder(r *rand.Rand) (any, string) {
+	if r.IntN(4) == 0 {
+		// placeholders whose YAML rendering spans several lines (block collections with keys
+		// of different lengths, literal-style strings) or nests collections
+		switch r.IntN(10) {
+		case 6:
+			return map[string]any{"ab": 1}, "map-single-key-2"
+		case 7:
+			return map[string]any{"abc": "x", "d": []any{"p", map[string]any{"q": "multi\nline"}}}, "map-key-3-nested"
+		case 8:
+			return "a\nb", "string-multi-line-no-final-newline"
+		case 9:
+			return "  indented first line\n\nblank above\n", "string-multi-line-indented"
+		case 0:
+			return map[string]any{"redacted": true, "why": "secret"}, "map-long-keys"
+		case 1:
+			return map[string]any{"redacted": true}, "map-single-key"
+		case 2:
+			return "line1\nline2\n", "string-multi-line"
+		case 3:
+			return []any{map[string]any{"k": "v"}, "multi\nline"}, "slice-nested"
+		case 4:
+			return map[string]any{"a": map[string]any{"b": []any{1, 2}}}, "map-nested"
+		default:
+			return map[string]any{"a-very-long-key-name-for-a-placeholder": 1, "z": []any{}}, "map-very-long-key"
+		}
+	}
 	switch r.IntN(10) {
 	case 0:
 		return "x", "string-short"
@@ -52,7 +80,36 @@ func drawPlaceholder(r *rand.Rand) (any, string) {
 	}
 }
 
-func scalarPH(k string) bool { return k != "map" && k != "slice" }
+// yamlPHClass names the placeholder shapes goccy's replace mis-indents (block mappings:
+// by the length of their first key; literal block scalars: not at all) - see
+// known_findings.json, fixed entry of C15.
+func yamlPHClass(ph any, depth int) string {
+	b, err := goyaml.Marshal(ph)
+	if err != nil {
+		return ""
+	}
+	if v := reflect.ValueOf(ph); v.IsValid() && v.Kind() == reflect.Map && v.Len() > 0 {
+		return "yaml-placeholder-rendered-as-block-mapping"
+	}
+	if strings.HasPrefix(string(b), "|") || strings.HasPrefix(string(b), ">") {
+		return "yaml-placeholder-rendered-as-literal-block-scalar"
+	}
+	return ""
+}
+
+// yamlApply runs a YAML matcher; a panic inside it is a violation of its own kind.
+func yamlApply(c *vkit.Ctx, class string, in any, f func() ([]byte, []match.MatcherError)) (out []byte, errs []match.MatcherError, ok bool) {
+	defer func() {
+		if r := recover(); r != nil {
+			c.Violate("matcher-panicked", class, fmt.Sprintf("YAML matcher panicked: %v", r), in)
+			ok = false
+		}
+	}()
+	out, errs = f()
+	return out, errs, true
+}
+
+func scalarPH(k string) bool { return !strings.HasPrefix(k, "map") && !strings.HasPrefix(k, "slice") }
 
 func typeName(n *vkit.JNode, yaml bool) (string, bool) {
 	switch n.Kind {
@@ -554,7 +611,15 @@ func c15YAMLMultiPath(c *vkit.Ctx, r *rand.Rand, i int) {
 		return
 	}
 	in := map[string]any{"sub": "yaml-direct-multi-path", "document": text, "paths": paths, "placeholder": ph}
-	out, errs := match.Any(paths...).Placeholder(ph).YAML([]byte(text))
+	maxDepth := 0
+	for _, p := range used {
+		maxDepth = max(maxDepth, len(p.Steps))
+	}
+	class := yamlPHClass(ph, maxDepth)
+	out, errs, ok := yamlApply(c, class, in, func() ([]byte, []match.MatcherError) { return match.Any(paths...).Placeholder(ph).YAML([]byte(text)) })
+	if !ok {
+		return
+	}
 	c.Count("yaml_multipath_applications", 1)
 	if len(errs) > 0 {
 		c.Count("yaml_direct_matcher_reported_error", 1)
@@ -562,11 +627,11 @@ func c15YAMLMultiPath(c *vkit.Ctx, r *rand.Rand, i int) {
 	}
 	gd, err := vkit.ParseYAMLDocs(string(out))
 	if err != nil || len(gd) != 1 {
-		c.Violate("matcher-output-invalid-yaml", "", fmt.Sprintf("Any(%v) placeholder %s: output does not decode to one document (%v): %s", paths, phk, err, vkit.Q(string(out))), in)
+		c.Violate("matcher-output-invalid-yaml", class, fmt.Sprintf("Any(%v) placeholder %s: output does not decode to one document (%v): %s", paths, phk, err, vkit.Q(string(out))), in)
 		return
 	}
 	if diff := exp.Equal(gd[0], true); diff != "" {
-		c.Violate("multi-path-matcher-changed-other-than-targets", "", fmt.Sprintf("YAML Any(%v) placeholder %s: differs from the model at %s; output %s", paths, phk, diff, vkit.Q(string(out))), in)
+		c.Violate("multi-path-matcher-changed-other-than-targets", class, fmt.Sprintf("YAML Any(%v) placeholder %s: differs from the model at %s; output %s", paths, phk, diff, vkit.Q(string(out))), in)
 		return
 	}
 	c.Count("yaml_placeholder:"+phk, 1)
@@ -613,13 +678,26 @@ func c15YAMLOverlap(c *vkit.Ctx, r *rand.Rand, i int) {
 	}
 	ph, phk := drawPlaceholder(r)
 	in := map[string]any{"sub": "yaml-direct-overlapping-paths", "document": text, "paths": paths, "placeholder": ph, "shape": shape}
-	out, errs := match.Any(paths...).Placeholder(ph).YAML([]byte(text))
+	maxDepth := 0
+	for _, p := range ps {
+		maxDepth = max(maxDepth, len(p.Steps))
+	}
+	class := yamlPHClass(ph, maxDepth)
+	out, errs, ok := yamlApply(c, class, in, func() ([]byte, []match.MatcherError) { return match.Any(paths...).Placeholder(ph).YAML([]byte(text)) })
+	if !ok {
+		return
+	}
 	c.Count("yaml_overlapping_paths_applications", 1)
 	c.Count("yaml_overlap:"+shape, 1)
 	seq := []byte(text)
 	var seqErr, gotErr []string
 	for _, p := range paths {
-		o, es := match.Any(p).Placeholder(ph).YAML(append([]byte{}, seq...))
+		o, es, ok := yamlApply(c, class, in, func() ([]byte, []match.MatcherError) {
+			return match.Any(p).Placeholder(ph).YAML(append([]byte{}, seq...))
+		})
+		if !ok {
+			return
+		}
 		for _, e := range es {
 			seqErr = append(seqErr, e.Path)
 		}
@@ -631,19 +709,19 @@ func c15YAMLOverlap(c *vkit.Ctx, r *rand.Rand, i int) {
 		gotErr = append(gotErr, e.Path)
 	}
 	if fmt.Sprint(gotErr) != fmt.Sprint(seqErr) {
-		c.Violate("multi-path-matcher-not-left-to-right", "", fmt.Sprintf("YAML Any(%v) [%s]: reported paths %v, the same paths applied one after the other report %v; output %s", paths, shape, gotErr, seqErr, vkit.Q(vkit.Clip(string(out), 600))), in)
+		c.Violate("multi-path-matcher-not-left-to-right", class, fmt.Sprintf("YAML Any(%v) [%s]: reported paths %v, the same paths applied one after the other report %v; output %s", paths, shape, gotErr, seqErr, vkit.Q(vkit.Clip(string(out), 600))), in)
 		return
 	}
 	gd, err := vkit.ParseYAMLDocs(string(out))
 	wd, err2 := vkit.ParseYAMLDocs(string(seq))
 	if err != nil || err2 != nil || len(gd) != 1 || len(wd) != 1 {
 		if (err != nil || len(gd) != 1) && len(gotErr) == 0 {
-			c.Violate("matcher-output-invalid-yaml", "", fmt.Sprintf("YAML Any(%v) placeholder %s: output does not decode to one document (%v): %s", paths, phk, err, vkit.Q(string(out))), in)
+			c.Violate("matcher-output-invalid-yaml", class, fmt.Sprintf("YAML Any(%v) placeholder %s: output does not decode to one document (%v): %s", paths, phk, err, vkit.Q(string(out))), in)
 		}
 		return
 	}
 	if diff := wd[0].Equal(gd[0], true); diff != "" {
-		c.Violate("multi-path-matcher-not-left-to-right", "", fmt.Sprintf("YAML Any(%v) [%s] placeholder %s: differs at %s from the same paths applied one after the other; output %s, one by one %s", paths, shape, phk, diff, vkit.Q(vkit.Clip(string(out), 600)), vkit.Q(vkit.Clip(string(seq), 600))), in)
+		c.Violate("multi-path-matcher-not-left-to-right", class, fmt.Sprintf("YAML Any(%v) [%s] placeholder %s: differs at %s from the same paths applied one after the other; output %s, one by one %s", paths, shape, phk, diff, vkit.Q(vkit.Clip(string(out), 600)), vkit.Q(vkit.Clip(string(seq), 600))), in)
 		return
 	}
 	c.Case(vkit.Hash("yo", text, fmt.Sprint(paths), phk), true)
@@ -703,7 +781,14 @@ func c15YAMLDirect(c *vkit.Ctx, r *rand.Rand, i int) {
 		return
 	}
 	in := map[string]any{"sub": "yaml-direct", "document": text, "matcher": spec}
-	out, errs := m.YAML([]byte(text))
+	class := ""
+	if spec.Kind != "type" {
+		class = yamlPHClass(want, len(p.Steps))
+	}
+	out, errs, ok := yamlApply(c, class, in, func() ([]byte, []match.MatcherError) { return m.YAML([]byte(text)) })
+	if !ok {
+		return
+	}
 	c.Count("yaml_direct_applications", 1)
 	if len(errs) > 0 {
 		c.Count("yaml_direct_matcher_reported_error", 1)
@@ -712,10 +797,6 @@ func c15YAMLDirect(c *vkit.Ctx, r *rand.Rand, i int) {
 	wantTree, _ := vkit.FromGo(want)
 	exp := d.Clone()
 	exp.Set(p, wantTree)
-	class := ""
-	if spec.Kind != "type" && !scalarPH(phk) {
-		class = "yaml-nonscalar-placeholder"
-	}
 	gd, err := vkit.ParseYAMLDocs(string(out))
 	if err != nil || len(gd) != 1+len(tail) {
 		c.Violate("matcher-output-invalid-yaml", class, fmt.Sprintf("%s(%q) placeholder %s: output does not decode to %d document(s) (%v, got %d): %s", spec.Kind, spec.PathS, phk, 1+len(tail), err, len(gd), vkit.Q(string(out))), in)
